@@ -113,6 +113,14 @@ class ObsSession:
             d["state"] = None
             w = gridw.RealWorld(d)
             ob = _CTORS[key](dict(grid=w.grid, agents=w.agents))
+            earlier = self.wdesc.get("earlier")
+            if earlier is not None:
+                # a history: the same observer object has already observed, for every agent, an earlier
+                # state of the same world (an observation is a function of the current state alone)
+                gridw.set_state_in_order(w, earlier, None)
+                for ag in w.agent_list:
+                    with oracle.scripted(oracle.Tape([0] * 400)):
+                        guarded(lambda: ob.get_obs(ag))
             gridw.set_state_in_order(w, state, self.wdesc.get("place_order"))
             for i, ag in enumerate(w.agent_list):
                 if ob._supported_agent(ag):
@@ -296,6 +304,23 @@ def observer_kinds(rng, a, rows, cols):
 
 # ----------------------------------------------------------------------------------------------
 
+def make_earlier(rng, wdesc, oi):
+    """an earlier legal state of the same world: the observer and up to two other agents stood on other
+    (empty) cells, one of them may have been alive / dead"""
+    state = copy.deepcopy(wdesc["state"])
+    rows, cols = wdesc["rows"], wdesc["cols"]
+    taken = {tuple(s["pos"]) for s in state if s["health"][0] > 0}
+    empty = [(r, c) for r in range(rows) for c in range(cols) if (r, c) not in taken]
+    rng.shuffle(empty)
+    movers = [oi] + rng.sample([i for i in range(len(state)) if i != oi], min(2, len(state) - 1))
+    moved = False
+    for i in movers:
+        if empty and state[i]["health"][0] > 0:
+            state[i]["pos"] = list(empty.pop())
+            moved = True
+    return state if moved else None
+
+
 class ObsProp(core.Prop):
     pid = "C09"
 
@@ -344,6 +369,8 @@ class ObsProp(core.Prop):
         sts = sess.dyn[1]
         pr, pc = sts[a][0]
         tags = ["fam:" + family, "kind:" + kind + ("" if kind != "centered" else (":self" if os_ else ":noself"))]
+        if wdesc.get("earlier") is not None:
+            tags.append("after-earlier-observations")
         nontrivial = bool(supported)
         if not supported:
             tags.append("unsupported")
@@ -402,6 +429,10 @@ class ObsProp(core.Prop):
         return c
 
     def _session_cases(self, rng, wdesc, oi, family, kinds, ntapes, tape_max=12):
+        if wdesc.get("state") and "earlier" not in wdesc and rng.random() < 0.5:
+            e = make_earlier(rng, wdesc, oi)
+            if e is not None:
+                wdesc = dict(wdesc, earlier=e)
         try:
             sess = ObsSession(copy.deepcopy(wdesc))
         except ValueError:
@@ -540,6 +571,8 @@ class ObsProp(core.Prop):
         w = d["world"]
         n = len(w["agents"])
         a = d["agent"]
+        if w.get("earlier") is not None:
+            yield dict(d, world={k: v for k, v in w.items() if k != "earlier"})
         # drop one agent other than the observer
         for i in range(n):
             if i == a:
@@ -547,6 +580,8 @@ class ObsProp(core.Prop):
             w2 = copy.deepcopy(w)
             del w2["agents"][i]
             del w2["state"][i]
+            if w2.get("earlier") is not None:
+                del w2["earlier"][i]
             if w2.get("place_order") is not None:
                 w2["place_order"] = [j - (j > i) for j in w2["place_order"] if j != i]
             yield dict(d, world=w2, agent=a - (a > i))
